@@ -10,6 +10,7 @@ import (
 	"context"
 	"fmt"
 	"sort"
+	"sync/atomic"
 
 	"github.com/LiskHQ/lisk-engine/pkg/blockchain"
 	"github.com/LiskHQ/lisk-engine/pkg/consensus"
@@ -47,6 +48,11 @@ type World struct {
 	Obs       *node.Obs
 	logger    log.Logger
 	rpc       *rpcWorld
+	// Probe: a second started connection of the harness' own making that carries the REAL handlers of the node (sync, pool)
+	// behind a counter: what the request stream handler did with a request (handler ran / peer banned / neither) is observable
+	Probe        *p2p.Connection
+	ProbeHandled int64
+	Notes        []string // sanity checks of the set-up that did not hold (reported as harness errors)
 
 	SmtKeys    [][]byte
 	SmtRoot    []byte
@@ -192,7 +198,39 @@ func newWorld(genesisTS uint32, network bool) (*World, error) {
 	if err := w.buildProofs(); err != nil {
 		return nil, err
 	}
+	if network {
+		if err := w.startProbe(); err != nil {
+			return nil, err
+		}
+	}
 	return w, nil
+}
+
+func (w *World) startProbe() error {
+	n := w.N
+	pc := p2p.NewConnection(w.logger, &p2p.Config{ChainID: n.ChainID, Addresses: []string{"/ip4/127.0.0.1/tcp/0"}})
+	sy := lsync.NewSyncer(n.Chain, n.Slot, pc, w.logger, nil, nil)
+	counted := func(name string, h p2p.RPCHandler) error {
+		return pc.RegisterRPCHandler(name, func(wr p2p.ResponseWriter, r *p2p.Request) {
+			atomic.AddInt64(&w.ProbeHandled, 1)
+			h(wr, r)
+		})
+	}
+	for name, h := range map[string]p2p.RPCHandler{
+		lsync.RPCEndpointGetLastBlock:          sy.HandleRPCEndpointGetLastBlock(),
+		lsync.RPCEndpointGetHighestCommonBlock: sy.HandleRPCEndpointGetHighestCommonBlock(),
+		lsync.RPCEndpointGetBlocksFromID:       sy.HandleRPCEndpointGetBlocksFromID(),
+		txpool.RPCEndpointGetTransactions:      w.PoolConn.rpc[txpool.RPCEndpointGetTransactions],
+	} {
+		if err := counted(name, h); err != nil {
+			return err
+		}
+	}
+	if err := pc.Start(crypto.RandomBytes(32)); err != nil {
+		return err
+	}
+	w.Probe = pc
+	return nil
 }
 
 type poolABI struct{}
@@ -238,8 +276,10 @@ func (w *World) buildProofs() error {
 	if w.SmtProof, err = smt.NewTrie(root, smtKeyLen).Prove(d, w.SmtKeys); err != nil {
 		return err
 	}
-	if ok, err := smt.Verify(w.SmtKeys, w.SmtProof.Copy(), root, smtKeyLen); err != nil || !ok {
-		return fmt.Errorf("the honest SMT proof does not verify: %v", err)
+	// (not fatal: a verifier that rejects - or panics on - the honest proof is seen again, under recover(), by the entry
+	// points; the note makes the run inconclusive only if nothing was found)
+	if note := honest(func() (bool, error) { return smt.Verify(w.SmtKeys, w.SmtProof.Copy(), root, smtKeyLen) }); note != "" {
+		w.Notes = append(w.Notes, "the honest SMT proof does not verify: "+note)
 	}
 	// regular Merkle trees of several sizes with a proof for two leaves each
 	w.Rmt = map[int]*rmtCase{}
@@ -273,6 +313,23 @@ func (w *World) buildProofs() error {
 	}
 	w.RmtQueries, w.RmtRoot, w.RmtProof = w.Rmt[8].Queries, w.Rmt[8].Root, w.Rmt[8].Proof
 	return nil
+}
+
+// honest runs a sanity check of the set-up under recover(): "" = holds.
+func honest(f func() (bool, error)) (note string) {
+	defer func() {
+		if p := recover(); p != nil {
+			note = fmt.Sprintf("panic: %v", p)
+		}
+	}()
+	ok, err := f()
+	if err != nil {
+		return err.Error()
+	}
+	if !ok {
+		return "rejected"
+	}
+	return ""
 }
 
 type rmtCase struct {
